@@ -38,10 +38,47 @@ type ent struct {
 	Link string
 }
 
-type snap map[string]ent
+type sent struct {
+	P string
+	E *ent
+}
+
+// snap is a directory tree in memory: entries sorted by path.  Entries and paths are interned process-wide, so the
+// thousands of snapshots of a frontier share the bytes of every file they have in common.
+type snap []sent
+
+var (
+	entIntern  sync.Map // ent -> *ent
+	pathIntern sync.Map // string -> string
+)
+
+func internEnt(e ent) *ent {
+	if v, ok := entIntern.Load(e); ok {
+		return v.(*ent)
+	}
+	p := &e
+	v, _ := entIntern.LoadOrStore(e, p)
+	return v.(*ent)
+}
+
+func internPath(s string) string {
+	if v, ok := pathIntern.Load(s); ok {
+		return v.(string)
+	}
+	v, _ := pathIntern.LoadOrStore(s, s)
+	return v.(string)
+}
+
+func (s snap) get(path string) (*ent, bool) {
+	i := sort.Search(len(s), func(i int) bool { return s[i].P >= path })
+	if i < len(s) && s[i].P == path {
+		return s[i].E, true
+	}
+	return nil, false
+}
 
 func capture(root string) snap {
-	s := snap{}
+	var s snap
 	filepath.WalkDir(root, func(p string, d fs.DirEntry, err error) error {
 		if err != nil {
 			return nil
@@ -55,12 +92,13 @@ func capture(root string) snap {
 			return nil
 		}
 		m := uint32(info.Mode().Perm())
+		var en ent
 		switch {
 		case info.Mode()&os.ModeSymlink != 0:
 			l, _ := os.Readlink(p)
-			s[rel] = ent{Kind: 'l', Mode: 0777, Link: strings.ReplaceAll(l, root, rootPH)}
+			en = ent{Kind: 'l', Mode: 0777, Link: strings.ReplaceAll(l, root, rootPH)}
 		case info.IsDir():
-			s[rel] = ent{Kind: 'd', Mode: m}
+			en = ent{Kind: 'd', Mode: m}
 		case info.Mode().IsRegular():
 			b, e := os.ReadFile(p)
 			if e != nil {
@@ -69,10 +107,14 @@ func capture(root string) snap {
 			if bytes.Contains(b, []byte(root)) {
 				b = bytes.ReplaceAll(b, []byte(root), []byte(rootPH))
 			}
-			s[rel] = ent{Kind: 'f', Mode: m, Data: string(b)}
+			en = ent{Kind: 'f', Mode: m, Data: string(b)}
+		default:
+			return nil
 		}
+		s = append(s, sent{internPath(rel), internEnt(en)})
 		return nil
 	})
+	sort.Slice(s, func(i, j int) bool { return s[i].P < s[j].P })
 	return s
 }
 
@@ -82,19 +124,14 @@ func restore(s snap, root string) {
 	if err := os.MkdirAll(root, 0755); err != nil {
 		panic(vx.ToolError{Msg: "restore: " + err.Error()})
 	}
-	keys := make([]string, 0, len(s))
-	for k := range s {
-		keys = append(keys, k)
-	}
-	sort.Strings(keys)
 	type dm struct {
 		p string
 		m uint32
 	}
 	var dirs []dm
-	for _, k := range keys {
-		e := s[k]
-		p := filepath.Join(root, k)
+	for _, se := range s {
+		e := se.E
+		p := filepath.Join(root, se.P)
 		var err error
 		switch e.Kind {
 		case 'd':
@@ -106,12 +143,15 @@ func restore(s snap, root string) {
 			os.MkdirAll(filepath.Dir(p), 0755)
 			err = os.Symlink(strings.ReplaceAll(e.Link, rootPH, root), p)
 		case 'f':
-			os.MkdirAll(filepath.Dir(p), 0755)
 			data := e.Data
 			if strings.Contains(data, rootPH) {
 				data = strings.ReplaceAll(data, rootPH, root)
 			}
 			err = os.WriteFile(p, []byte(data), os.FileMode(e.Mode)|0200)
+			if err != nil {
+				os.MkdirAll(filepath.Dir(p), 0755)
+				err = os.WriteFile(p, []byte(data), os.FileMode(e.Mode)|0200)
+			}
 			if err == nil && os.FileMode(e.Mode)|0200 != os.FileMode(e.Mode) {
 				err = os.Chmod(p, os.FileMode(e.Mode))
 			}
@@ -322,7 +362,7 @@ type wstate struct {
 
 func parseRefs(s snap, gitdir string) map[string]string {
 	refs := map[string]string{}
-	if e, ok := s[gitdir+"/packed-refs"]; ok && e.Kind == 'f' {
+	if e, ok := s.get(gitdir + "/packed-refs"); ok && e.Kind == 'f' {
 		for _, ln := range strings.Split(e.Data, "\n") {
 			if ln == "" || ln[0] == '#' || ln[0] == '^' {
 				continue
@@ -333,7 +373,8 @@ func parseRefs(s snap, gitdir string) map[string]string {
 		}
 	}
 	pre := gitdir + "/refs/"
-	for k, e := range s {
+	for _, se := range s {
+		k, e := se.P, se.E
 		if e.Kind == 'f' && strings.HasPrefix(k, pre) {
 			v := strings.TrimSpace(e.Data)
 			if len(v) == 40 {
@@ -347,7 +388,8 @@ func parseRefs(s snap, gitdir string) map[string]string {
 func parseStore(s snap, lfsdir string) map[string]objInfo {
 	m := map[string]objInfo{}
 	pre := lfsdir + "/objects/"
-	for k, e := range s {
+	for _, se := range s {
+		k, e := se.P, se.E
 		if e.Kind != 'f' || !strings.HasPrefix(k, pre) {
 			continue
 		}
@@ -367,15 +409,16 @@ func digest(s snap, srv [2]map[string]string) *wstate {
 	st.RRefs[1] = parseRefs(s, "other.git")
 	st.RStore[0] = parseStore(s, "origin.git/lfs")
 	st.RStore[1] = parseStore(s, "other.git/lfs")
-	if e, ok := s["local/.git/HEAD"]; ok {
+	if e, ok := s.get("local/.git/HEAD"); ok {
 		st.Head = strings.TrimPrefix(strings.TrimSpace(e.Data), "ref: refs/heads/")
 	}
-	for k, e := range s {
+	for _, se := range s {
+		k, e := se.P, se.E
 		if e.Kind == 'f' && strings.HasPrefix(k, "local/") && !strings.HasPrefix(k, "local/.git/") && strings.Count(k, "/") == 1 {
 			st.WT[k[len("local/"):]] = sha256hex([]byte(e.Data))
 		}
 	}
-	if e, ok := s["local/.git/config"]; ok {
+	if e, ok := s.get("local/.git/config"); ok {
 		for _, ln := range strings.Split(e.Data, "\n") {
 			f := strings.Fields(ln)
 			if len(f) == 3 && strings.EqualFold(f[0], "allowincompletepush") && f[1] == "=" {
@@ -465,6 +508,10 @@ type envT struct {
 	blobSha  map[string]string // form -> git blob sha1
 	shaForm  map[string]string // git blob sha1 -> form
 	base     snap              // world with an empty local repository and two empty bare remotes
+
+	initSc    map[bool]*scenario // pseudo-scenario holding the transitions that build the initial states
+	initStats map[bool]*vx.Stats
+	initSeen  map[string]bool
 
 	treeCache sync.Map // commit-ish sha -> map[path]blobsha
 	blobCache sync.Map // blob sha -> []byte (small blobs only)
